@@ -68,6 +68,28 @@ def func_table(api, name):
         out["params"][a.arg] = api.annotation(a.annotation)
     body = [s for s in fn.body if not (isinstance(s, ast.Expr) and isinstance(s.value, ast.Constant))]
     out["shape_ok"] = False
+    # statements before the final return: a keyword parameter that is re-bound there no longer carries what the caller passed
+    out["rebound"] = []
+    pre, body = body[:-1], body[-1:]
+    for st in pre:
+        for n in ast.walk(st):
+            tg = []
+            if isinstance(n, ast.Assign): tg = n.targets
+            elif isinstance(n, (ast.AugAssign, ast.AnnAssign, ast.NamedExpr)): tg = [n.target]
+            elif isinstance(n, (ast.For, ast.AsyncFor)): tg = [n.target]
+            elif isinstance(n, ast.Delete): tg = n.targets
+            elif isinstance(n, ast.withitem) and n.optional_vars is not None: tg = [n.optional_vars]
+            for t in tg:
+                for m in ast.walk(t):
+                    if isinstance(m, ast.Name) and m.id in out["params"]:
+                        cond = ""
+                        if isinstance(st, ast.If): cond = " when `%s`" % (ast.unparse(st.test) if hasattr(ast, "unparse") else "?")
+                        val = ast.unparse(n.value) if hasattr(ast, "unparse") and getattr(n, "value", None) is not None else "?"
+                        out["rebound"].append((m.id, val, cond))
+    simple = all(isinstance(st, (ast.Assign, ast.AnnAssign, ast.Pass)) or (isinstance(st, ast.If) and all(isinstance(x, (ast.Assign, ast.AnnAssign, ast.Pass)) for x in st.body + st.orelse)) for st in pre)
+    if pre and not simple and not out["rebound"]:
+        out["why"].append("statements before the final return are not plain assignments")
+        body = []
     if len(body) == 1 and isinstance(body[0], ast.Return) and isinstance(body[0].value, ast.Call):
         c = body[0].value
         if isinstance(c.func, ast.Name) and c.func.id == "_run_zerv_command":
@@ -150,6 +172,9 @@ def check(F, rep, tier):
     for fname, floor in FUNCS.items():
         tab = func_table(api, fname)
         if not rep.anchor("R18.1", "python function " + fname, tab): continue
+        for pname, val, cond in tab.get("rebound", []):
+            rep.bad("R18.6", "parameter-rebound:%s.%s" % (fname, pname), "zerv.%s re-binds its keyword `%s` to %s%s before building the command line: what reaches the CLI is not what the caller passed (a None/False argument then adds an option)" % (fname, pname, val, cond), PYFILE)
+        if not tab.get("rebound"): rep.ok("R18.6", "zerv.%s passes its keywords on as received (none is re-bound)" % fname, nontrivial_key="rebind" + fname)
         if not tab["shape_ok"]:
             rep.undecided("R18.4", "unrecognised-shape:" + fname, "zerv.%s: %s" % (fname, "; ".join(tab["why"])), PYFILE); continue
         kwonly = [k for k in tab["params"] if k not in tab["positional"]]
